@@ -103,6 +103,11 @@ def sequence_is_or(pi):
     vinit = q.let_init(body, vid) if vid is not None else None
     if vinit is None:
         return False
+    vb = unblock(vinit)
+    if vb.get("k") == "Block" and vb.get("expr") is not None and q.var_id(vb["expr"]) is not None and q.let_init(vb, q.var_id(vb["expr"])) is not None:
+        # `let v = { let mut c = Vec::new(); for .. { c.push(..) }; c }` (a collect): c is the vector
+        vid = q.var_id(vb["expr"])
+        vinit = q.let_init(vb, vid)
     def mapping_payload(arg):
         aid = q.base_var(arg, body)
         for pat in q.all_patterns(body):
@@ -179,7 +184,7 @@ def run(rep):
     if pm is None:
         rep.lost("T-LOWER", "T-LOWER/anchor", "parser::parse_mapping")
         return
-    vmatch = [n for n in walk(pm.body) if n.get("k") == "Match" and show(n["scrut"]) == "v"]
+    vmatch = [n for n in walk(pm.body) if n.get("k") == "Match" and show(n["scrut"]) == "v" and len([a for a in n["arms"] if variant_of(a["pat"])]) >= 4]  # (not a `matches!(v, ..)` test)
     if len(vmatch) != 1:
         rep.lost("T-YAML", "T-YAML/anchor", "match on the YAML value")
         return
@@ -207,9 +212,25 @@ def run(rep):
     oku = len(ul) == 1 and show(ul[0]["init"]) == "if let &Expression::Match(_, $e) = e {Clone::clone(e)} else {Clone::clone(e)}"
     rep.check(oku, "OPERAND", "OPERAND/unmatched_e", ul[0]["sp"] if ul else pm.sp, "unmatched_e is the key expression with an all()/of() wrapper removed", show(ul[0]["init"])[:120] if ul else "-")
     # the single-value arms can only see Field/Cast keys: a Match key is accepted only `if let Yaml::Sequence(_) = v`
-    kcheck = [n for n in walk(pm.body) if n.get("k") == "If" and show(n["cond"]) == "let &Value::Sequence(_) = v"]
-    okk = len(kcheck) == 1 and any(x.get("k") == "Return" for x in walk(kcheck[0]["else"])) and any(e[0] == "arm" and pat_str(e[1]).startswith("Expression::Match(") for _n, p in walk_with_path(pm.body) if _n is kcheck[0] for e in q.context(p, _n))
-    rep.check(okk, "K-MOD", "K-MOD/match-only-on-lists", kcheck[0]["sp"] if kcheck else pm.sp, "all()/of() keys are accepted only when the value is a list (so single-value arms see Field/Cast keys)", "")
+    def seq_test(c):
+        """+1 / -1 when the condition says `v is a Sequence` / `v is not a Sequence`, else 0"""
+        c = unblock(c)
+        if c.get("k") == "Unary" and c["op"] == "Not":
+            return -seq_test(c["arg"])
+        if c.get("k") == "LetCond" and variant_of(c["pat"]) and variant_of(c["pat"])[1] == "Sequence" and show(c["arg"]) == "v":
+            return 1
+        if c.get("k") == "Match" and show(c["scrut"]) == "v" and len(c["arms"]) == 2 and variant_of(c["arms"][0]["pat"]) and variant_of(c["arms"][0]["pat"])[1] == "Sequence" \
+                and lit(c["arms"][0]["body"]) == ("bool", True) and lit(c["arms"][1]["body"]) == ("bool", False):
+            return 1
+        return 0
+    okk = False
+    ksite = pm.sp
+    for _n, p in walk_with_path(pm.body):
+        # the place where a Match key is turned into the entry's (expression, field) pair
+        if _n.get("k") == "Adt" and _n["adt"] == "parser::Expression" and _n["variant"] == "Match" and any(e[0] == "arm" and pat_str(e[1]).startswith("Expression::Match(") for e in q.context(p, _n)):
+            ksite = _n["sp"]
+            okk = any(e[0] == "if" and seq_test(e[1]) == (1 if e[2] else -1) for e in q.context(p, _n))
+    rep.check(okk, "K-MOD", "K-MOD/match-only-on-lists", ksite, "all()/of() keys are accepted only when the value is a list (so single-value arms see Field/Cast keys)", "")
 
     # ---------------------------------------------------------------- T-LOWER numeric tables (single and list)
     def numeric_rows(root, tag):
@@ -314,7 +335,10 @@ def run(rep):
         rep.check(s.startswith("{let $identifier = IdentifierParser::into_identifier(ToOwned::to_owned(s))?;"), "T-YAML", "T-YAML/single/String", arms["String"]["sp"], "string value is parsed as a pattern", s[:90])
 
     # ---------------------------------------------------------------- K-MOD
-    km = [n for n in walk(pm.body) if n.get("k") == "Match" and show(n["scrut"]) == "expr"]
+    def _is_parsed_key(sc):
+        r = q.resolve(pm.body, sc) if peel(sc).get("k") == "Var" else sc
+        return r is not None and any(call_is(x, "parser::parse") for x in walk(r))
+    km = [n for n in walk(pm.body) if n.get("k") == "Match" and _is_parsed_key(n["scrut"]) and any(pat_str(a["pat"]).startswith("Expression::Cast(") for a in n["arms"])]
     if len(km) != 1:
         rep.lost("K-MOD", "K-MOD/anchor", "match on the parsed key")
     else:
@@ -360,10 +384,17 @@ def run(rep):
     tsite = pm.sp
     for n, npath in walk_with_path(pm.body):
         sc, brs = q.branches(n)
-        if sc is None or "Option<tokeniser::ModSym>" not in str(sc.get("ty", "")) or len(brs) != 2:
+        eqform = False
+        if n.get("k") == "If" and n.get("else") is not None and unblock(n["cond"]).get("k") in ("Call", "Binary"):
+            c_ = unblock(n["cond"])
+            ops = c_["args"] if c_.get("k") == "Call" and (c_.get("fn") or "").endswith("PartialEq::eq") and len(c_["args"]) == 2 else ([c_["lhs"], c_["rhs"]] if c_.get("k") == "Binary" and c_.get("op") == "Eq" else [])
+            if len(ops) == 2 and any("Option<tokeniser::ModSym>" in str(peel(o).get("ty", "")) and peel(o).get("k") in ("Var", "Upvar") for o in ops) and any(show(o) == "Option::Some(ModSym::Not)" for o in ops):
+                eqform = True
+                brs = [(None, n["then"]), (None, n["else"])]
+        if not eqform and (sc is None or "Option<tokeniser::ModSym>" not in str(sc.get("ty", "")) or len(brs) != 2):
             continue
         (p0, b0), (p1, b1) = brs
-        if p0 is not None and pat_str(p0) == "Option::Some(ModSym::Not)" and (p1 is None or variant_of(p1) == ("Option", "None")) and b1 is not None:
+        if (eqform or (p0 is not None and pat_str(p0) == "Option::Some(ModSym::Not)" and (p1 is None or variant_of(p1) == ("Option", "None")))) and b1 is not None:
             tsite = n["sp"]
             # what reaches the entry vector in each branch: the branch pushes it, or the branch is the pushed value
             def pushed(b_):
@@ -390,13 +421,28 @@ def run(rep):
     rep.check(len(joins) >= 1, "K-MOD", "K-MOD/keys-with-spaces", pm.sp, "identifier tokens split at spaces are joined back with a space", "%d join sites" % len(joins))
 
     # ---------------------------------------------------------------- T-CONJ
+    # the entry vector: the one the and-group result is built from
+    evs = {q.var_id(f["e"]) for n in walk(pm.body) if n.get("k") == "Adt" and n["adt"] == "parser::Expression" and n["variant"] == "BooleanGroup" and any(peel(g["e"]).get("variant") == "And" for g in n["fields"])
+           for f in n["fields"] if f["name"] == "1" and not any(p_.get("k") in ("For", "Loop") for nn, pp in walk_with_path(pm.body) if nn is n for p_ in pp)} - {None}
+    ev = sorted(evs)[-1] if evs else None
+
+    def one_left(n, path):
+        """the entry vector is known to hold exactly one entry here"""
+        for e in q.context(path, n):
+            if e[0] == "arm" and call_is(peel(e[2]), "::len") and q.base_var(peel(e[2])["args"][0]) == ev and strip_ref(e[1]).get("k") == "Const" and strip_ref(e[1])["v"].split("_")[0] == "1":
+                return True
+            if e[0] == "if" and e[2] and any(peel(c).get("k") == "Binary" and peel(c)["op"] == "Eq" and call_is(peel(peel(c)["lhs"]), "::len") and q.base_var(peel(peel(c)["lhs"])["args"][0]) == ev and lit(peel(c)["rhs"]) == ("i", 1) for c in q.conj(e[1])):
+                return True
+        return False
     uses = []
-    for n in walk(pm.body):
-        if n.get("k") == "Call" and n.get("args") and show(n["args"][0]) == "expressions" and n.get("fn"):
-            uses.append(n["fn"].split("::")[-1])
-    rep.check(set(uses) <= {"push", "is_empty", "len", "into_iter"} and uses.count("push") >= 1, "T-CONJ", "T-CONJ/mapping-vector", pm.sp, "the entry vector is only appended to (no reordering, no removal)", str(sorted(set(uses))))
-    fl = [n for n in walk(pm.body) if n.get("k") == "For" and show(n["iter"]) == "mapping"]
-    okf = len(fl) == 1 and all(any(l is fl[0] for l in p) for n, p in walk_with_path(pm.body) if call_is(n, "::push") and show(n["args"][0]) == "expressions")
+    for n, path in walk_with_path(pm.body):
+        if n.get("k") == "Call" and n.get("args") and q.base_var(n["args"][0]) == ev and ev is not None and n.get("fn"):
+            nm = n["fn"].split("::")[-1]
+            uses.append("pop(the only entry)" if nm == "pop" and one_left(n, path) else nm)
+    rep.check(set(uses) <= {"push", "is_empty", "len", "into_iter", "pop(the only entry)"} and uses.count("push") >= 1, "T-CONJ", "T-CONJ/mapping-vector", pm.sp, "the entry vector is only appended to (no reordering, no removal)", str(sorted(set(uses))))
+    map_id = strip_ref(pm.thir["params"][0]["pat"]).get("id")
+    fl = [n for n in walk(pm.body) if n.get("k") == "For" and q.base_var(n["iter"]) == map_id]
+    okf = len(fl) == 1 and all(any(l is fl[0] for l in p) for n, p in walk_with_path(pm.body) if call_is(n, "::push") and q.base_var(n["args"][0]) == ev)
     rep.check(okf, "T-CONJ", "T-CONJ/in-order", fl[0]["sp"] if fl else pm.sp, "entries are appended while iterating the mapping in its own order", "")
     # results of parse_mapping: Ok(and-group of the entries) in general, Ok(the entry) for exactly one entry
     oks = [n for n in walk(pm.body) if n.get("k") == "Adt" and n["adt"].endswith("result::Result") and n["variant"] == "Ok" and not any(p for p in ())]
@@ -404,15 +450,26 @@ def run(rep):
     for n, path in walk_with_path(pm.body):
         if n.get("k") == "Adt" and n["adt"].endswith("result::Result") and n["variant"] == "Ok" and not any(p.get("k") in ("For", "Loop", "Closure") for p in path):
             tails.append((n, path))
-    grp = [n for n, _ in tails if show(n) == "Result::Ok(Expression::BooleanGroup(BoolSym::And, expressions))"]
-    one = [(n, p) for n, p in tails if show(n) == "Result::Ok(<T>::expect(Iterator::next(IntoIterator::into_iter(expressions)), \"..\"))"]
+    def _is_group(n):
+        g = peel(n["fields"][0]["e"])
+        return g.get("k") == "Adt" and g.get("adt") == "parser::Expression" and g.get("variant") == "BooleanGroup" and show(g["fields"][0]["e"]) == "BoolSym::And" and q.var_id(g["fields"][1]["e"]) == ev
+
+    def _is_single(n):
+        x = peel(n["fields"][0]["e"])
+        if not (x.get("k") == "Call" and (x.get("fn") or "").endswith(("::expect", "::unwrap")) and x["args"]):
+            return False
+        y = peel(x["args"][0])
+        if call_is(y, "Iterator::next") and call_is(peel(y["args"][0]), "IntoIterator::into_iter"):
+            return q.base_var(peel(y["args"][0])["args"][0]) == ev
+        return call_is(y, "::pop") and q.base_var(y["args"][0]) == ev
+    grp = [n for n, _ in tails if _is_group(n)]
+    one = [(n, p) for n, p in tails if _is_single(n)]
     rep.check(len(grp) == 1 and len(tails) == 2, "T-CONJ", "T-CONJ/mapping-is-and", pm.sp, "a mapping with several entries is the and-group of them (the only other Ok result is the single entry)", "; ".join(show(n)[:70] for n, _ in tails))
     ok1 = False
     if len(one) == 1:
         n1, p1 = one[0]
         ctx1 = q.context(p1, n1)
-        ok1 = any(e[0] == "if" and e[2] and show(e[1]) == "(<T, A>::len(expressions) Eq 1)" for e in ctx1) or \
-            any(e[0] == "arm" and show(e[2]) == "<T, A>::len(expressions)" and strip_ref(e[1]).get("k") == "Const" and strip_ref(e[1])["v"].startswith("1") for e in ctx1)
+        ok1 = one_left(n1, p1)
     rep.check(ok1, "T-CONJ", "T-CONJ/single-entry", pm.sp, "a one-entry mapping is that entry (taken only when the length is 1)", "")
     pi = F.fn("parser::parse_identifier")
     if pi is None:
